@@ -228,8 +228,14 @@ func (s *Session) Run(ctx context.Context, dir string, args ...string) error {
 		go func() {
 			f := func() error {
 
+				// Work on a copy of the output set: each output is
+				// marked (Bindingss) once it has been seen, so that
+				// a message arriving twice doesn't count twice.
+				outputs := make([]Output, len(iop.OutputSet))
+				copy(outputs, iop.OutputSet)
+
 				need := 0
-				for _, o := range iop.OutputSet {
+				for _, o := range outputs {
 					if !o.Inverted {
 						need++
 					}
@@ -250,7 +256,8 @@ func (s *Session) Run(ctx context.Context, dir string, args ...string) error {
 						log.Printf("ignoring %s", line)
 						continue
 					} else {
-						for _, output := range iop.OutputSet {
+						for i := range outputs {
+							output := &outputs[i]
 							if output.Bindingss != nil {
 								continue
 							}
